@@ -3,6 +3,7 @@ package props
 import (
 	"errors"
 	"fmt"
+	"strings"
 
 	"verifharness/gen"
 	"verifharness/mon"
@@ -96,7 +97,7 @@ func (p c02) Run(w *mon.Worker, idx int) mon.Result {
 	if doc.IsScalar() {
 		doc = ref.MapV(ref.KV{K: "a", V: doc})
 	}
-	law := []string{"put", "put", "getput", "putput", "update", "compound"}[idx%6]
+	law := []string{"put", "put", "getput", "putput", "update", "compound", "put", "sharing", "overwrite"}[idx%9]
 	opts := gen.PathOpts{AllowCreate: law == "put" || law == "putput", AllowMulti: true, NoRoot: true}
 	path := gen.RandomPath(r, doc, opts)
 	pstr := path.String()
@@ -160,6 +161,88 @@ func (p c02) Run(w *mon.Worker, idx int) mon.Result {
 		}
 	}
 	switch law {
+	case "sharing":
+		// a value written to two places stays two values: a later write under one must not reach the other
+		val := ref.MapV(ref.KV{K: "x", V: ref.MapV(ref.KV{K: "y", V: ref.IntV(1)}, ref.KV{K: "z", V: ref.SeqV(ref.IntV(1), ref.IntV(2))})}, ref.KV{K: "w", V: ref.StrV("s")})
+		if doc.K != ref.Map {
+			doc = ref.MapV(ref.KV{K: "a", V: doc})
+		}
+		k1, k2 := "n1", "n2"
+		if len(doc.M) >= 2 && r.IntN(2) == 0 && identOK(doc.M[0].K) && identOK(doc.M[1].K) {
+			k1, k2 = doc.M[0].K, doc.M[1].K // overwrite existing entries instead of creating new ones
+		}
+		sub := []string{".x.y", ".x.z[0]", ".w", ".x.z[1]"}[r.IntN(4)]
+		var expr string
+		switch r.IntN(4) {
+		case 0:
+			expr = fmt.Sprintf("%s as $v | .%s = $v | .%s = $v | .%s%s = 9", ref.Lit(val).String(), k1, k2, k1, sub)
+		case 1:
+			expr = fmt.Sprintf("%s as $v | (.%s, .%s) = $v | .%s%s = 9", ref.Lit(val).String(), k1, k2, k1, sub)
+		case 2:
+			expr = fmt.Sprintf(".%s = %s | .%s = .%s | .%s%s = 9", k1, ref.Lit(val).String(), k2, k1, k1, sub)
+		default:
+			expr = fmt.Sprintf(".%s = %s | .%s = .%s | .%s%s = 9", k1, ref.Lit(val).String(), k2, k1, k2, sub)
+		}
+		cs["expr"], cs["doc"] = expr, doc.JSON()
+		want := doc.Copy()
+		_ = ref.SetPath(want, []any{k1}, val)
+		_ = ref.SetPath(want, []any{k2}, val)
+		target := k1
+		if strings.HasSuffix(expr, fmt.Sprintf(".%s%s = 9", k2, sub)) {
+			target = k2
+		}
+		var subPath []any
+		switch sub {
+		case ".x.y":
+			subPath = []any{"x", "y"}
+		case ".x.z[0]":
+			subPath = []any{"x", "z", 0}
+		case ".x.z[1]":
+			subPath = []any{"x", "z", 1}
+		default:
+			subPath = []any{"w"}
+		}
+		_ = ref.SetPath(want, append([]any{target}, subPath...), ref.IntV(9))
+		got, _, yerr := evalDoc(expr, doc)
+		res.Evals++
+		res.Nontrivial = true
+		res.Sig = fmt.Sprintf("sharing|%s|%x", sub, doc.ShapeHash())
+		if yerr != nil {
+			return fail("`%s` failed: %v", expr, yerr)
+		}
+		if got == nil || !ref.EqualNum(got, want) {
+			return fail("`%s`: the two assigned locations are not independent\n expected %s\n observed %s", expr, want, got)
+		}
+		return hold("assigned values independent")
+
+	case "overwrite":
+		// an intermediate created on the way to a deeper write is an ordinary node afterwards
+		if doc.K != ref.Map {
+			doc = ref.MapV(ref.KV{K: "a", V: doc})
+		}
+		sv := []string{"5", "true", "null", "1.5", "0x10", "~", "", "text"}[r.IntN(8)]
+		mid := []string{"n1", "q"}[r.IntN(2)]
+		deep := []string{".k", ".k.j", "[1]", ".k[0]"}[r.IntN(4)]
+		expr := fmt.Sprintf(".%s%s = 1 | .%s = %s", mid, deep, mid, ref.ExprString(sv))
+		if r.IntN(3) == 0 {
+			expr += fmt.Sprintf(" | .%s += \"1\"", mid)
+			sv += "1"
+		}
+		cs["expr"], cs["doc"] = expr, doc.JSON()
+		want := doc.Copy()
+		_ = ref.SetPath(want, []any{mid}, ref.StrV(sv))
+		got, _, yerr := evalDoc(expr, doc)
+		res.Evals++
+		res.Nontrivial = true
+		res.Sig = fmt.Sprintf("overwrite|%s|%s|%x", sv, deep, doc.ShapeHash())
+		if yerr != nil {
+			return fail("`%s` failed: %v", expr, yerr)
+		}
+		if got == nil || !ref.EqualNum(got, want) {
+			return fail("`%s`\n expected %s\n observed %s", expr, want, got)
+		}
+		return hold("intermediate overwritten with the string")
+
 	case "put":
 		expr := pstr + " = " + ref.Lit(v).String()
 		cs["expr"] = expr
